@@ -279,53 +279,79 @@ def gabor_norm(ctx, R="R-C05-gabor-norm"):
 
 
 def triangle(ctx, R="R-C05-triangle"):
+    """Per bin: the value stored is the documented triangle evaluated at the bin's frequency, with the filter's own three
+    vertices.  Everything is read off the data flow into the returned array; local variable names play no role."""
     prog = ctx.prog
+    B = S.sym("BIN")
+    n_ok = 0
     for name in fc.VERTEX_BANKS:
         c = fc.bank(prog, name)
         for meth in ("get_frequency_response", "get_truncated_response"):
             f = prog.own_method(c, meth)
-            loops = [n for n in f.body_nodes() if isinstance(n, ast.For) and astq.is_name(n.target, "idx")]
-            ctx.need(len(loops) == 1, R, "bin loop not found in %s.%s" % (name, meth))
-            ev = cc.body_eval(prog, f, loops[0].body)
-            hz = ev.env.get("hz")
-            want_hz = S.truediv(S.mul(S.sym("self._rate"), S.sym("idx")), S.sym("width"))
-            ctx.check(hz is not None and S.compare(hz, want_hz, domain={})["verdict"] == "equal", R, f, loops[0], "%s.%s: bin idx sits at rate * idx / width Hz" % (name, meth),
-                      "bin frequency is %s" % (S.show(hz) if hz is not None else None))
+            fi, width = S.sym(f.params[1]), S.sym(f.params[2])
+            stores = fc.bin_stores(prog, f, {"half": False} if meth == "get_frequency_response" else None)
+            ctx.need(stores, R, "no per-bin store into the returned array found in %s.%s" % (name, meth))
+            # the primary store: index BIN (full response) or BIN - start (truncated); mirrored stores (index -BIN) are C06's
+            prim = [s_ for s_ in stores if S.compare(S.sub(s_["index"], B), S.sub(stores[0]["index"], B), domain={})["verdict"] == "equal"
+                    and "BIN" in S.symbols(s_["index"]) and not S.compare(S.add(s_["index"], B), S.ZERO, domain={})["verdict"] == "equal"]
+            ctx.need(prim, R, "primary per-bin store not identified in %s.%s" % (name, meth))
+            val = fc.piecewise(prim)
+            # square root taken at the store or on the returned array
+            sq_ret = any(isinstance(r_.value, ast.Tuple) and any(isinstance(x, ast.BinOp) and isinstance(x.op, ast.Pow) and astq.text(x.right) in ("0.5", "1 / 2")
+                                                                  for x in ast.walk(r_.value)) or
+                         (isinstance(r_.value, ast.Tuple) and any(isinstance(x, ast.Call) and astq.text(x.func).endswith("sqrt") for x in ast.walk(r_.value)))
+                         for r_ in astq.returns_of(f))
+            hz = S.truediv(S.mul(S.sym("self._rate"), B), width)
+            V = [S.call("getitem", S.sym("self._vertices"), S.add(fi, S.lift(k))) for k in range(3)]
+            V[0] = S.call("getitem", S.sym("self._vertices"), fi)
             if name == "TriangularOverlappingFilterBank":
-                x, l, m, r_ = S.sym("HZ"), S.sym("left"), S.sym("mid"), S.sym("right")
-                val = ev.env.get("val") if meth == "get_frequency_response" else ev.env.get("res[-1*left_idx + idx]") or next((v for k, v in ev.env.items() if k.startswith("res[")), None)
-                ctx.need(val is not None, R, "triangle value not found in %s.%s" % (name, meth))
-                val = S.subst(val, {hz: x})
+                x, (l, m, r_) = hz, V
                 want = S.cond(S.cmp("<=", x, m), S.truediv(S.sub(x, l), S.sub(m, l)), S.truediv(S.sub(r_, x), S.sub(r_, m)))
                 post = ""
             else:
-                x, l, m, r_ = S.sym("MEL"), S.sym("left_mel"), S.sym("mid_mel"), S.sym("right_mel")
-                mel = ev.env.get("mel")
-                ctx.need(mel is not None, R, "mel not found in %s.%s" % (name, meth))
-                ok = mel.op == "call" and mel.args[0] == ".hertz_to_scale" and S.show(mel.args[1]) in ("scales.MelScaling()", "scaling_function") and mel.args[2] == hz
-                ctx.check(ok, R, f, loops[0], "%s.%s: bins are converted to mel with hertz_to_scale" % (name, meth), "mel is %s" % S.show(mel)[:100])
-                val = ev.env.get("val") if meth == "get_frequency_response" else next((v for k, v in ev.env.items() if k.startswith("res[")), None)
-                ctx.need(val is not None, R, "triangle value not found in %s.%s" % (name, meth))
-                val = S.subst(val, {mel: x})
-                want = S.cond(S.cmp("<=", x, m), S.truediv(S.sub(x, l), S.sub(m, l)), S.truediv(S.sub(r_, x), S.sub(r_, m)))
-                post = " in mel, then square-rooted"
-            ok = val.op == "cond" and val.args[0] == want.args[0] and S.compare(val.args[1], want.args[1], domain={})["verdict"] == "equal" and \
-                S.compare(val.args[2], want.args[2], domain={})["verdict"] == "equal"
-            ctx.check(ok, R, f, loops[0], "%s.%s: value is (x - l)/(m - l) up to the centre, (r - x)/(r - m) beyond it%s" % (name, meth, post),
-                      "%s.%s evaluates %s" % (name, meth, S.show(val)[:200]))
-            if name == "Fbank":
-                txt = astq.text(f.node).replace(" ", "")
-                ok = ("res[idx]=val**0.5" in txt) if meth == "get_frequency_response" else any(
-                    isinstance(r_.value, ast.Tuple) and astq.eq_text(r_.value.elts[-1], "res**0.5") for r_ in astq.returns_of(f))
-                ctx.check(ok, R, f, f.node, "Fbank.%s takes the square root of the mel triangle" % meth, "Fbank.%s does not square-root the triangle" % meth)
-                mels = {astq.text(n.targets[0]): astq.text(n.value).replace(" ", "") for n in f.body_nodes() if isinstance(n, ast.Assign) and isinstance(n.targets[0], ast.Name)}
-                ok = mels.get("left_mel") == "scaling_function.hertz_to_scale(left_hz)" and mels.get("mid_mel") == "scaling_function.hertz_to_scale(mid_hz)" and \
-                    mels.get("right_mel") == "scaling_function.hertz_to_scale(right_hz)" and mels.get("scaling_function") == "MelScaling()"
-                ctx.check(ok, R, f, f.node, "Fbank.%s converts its three vertices with MelScaling.hertz_to_scale" % meth)
-            vs = {astq.text(n.targets[0]): astq.text(n.value).replace(" ", "") for n in f.body_nodes() if isinstance(n, ast.Assign) and isinstance(n.targets[0], ast.Name)}
-            suffix = "_hz" if name == "Fbank" else ""
-            ok = vs.get("left" + suffix) == "self._vertices[filt_idx]" and vs.get("mid" + suffix) == "self._vertices[filt_idx+1]" and vs.get("right" + suffix) == "self._vertices[filt_idx+2]"
-            ctx.check(ok, R, f, f.node, "%s.%s: filter i uses vertices i, i+1, i+2" % (name, meth), "vertices used are %s" % {k: v for k, v in vs.items() if "vertices" in v})
+                def mel(e):
+                    return S.call(".hertz_to_scale", S.call("scales.MelScaling"), e)
+                x, (l, m, r_) = mel(hz), [mel(v) for v in V]
+                tri = S.cond(S.cmp("<=", x, m), S.truediv(S.sub(x, l), S.sub(m, l)), S.truediv(S.sub(r_, x), S.sub(r_, m)))
+                want = tri if sq_ret else S.power(tri, S.lift(Fraction(1, 2)))
+                post = " in mel (MelScaling.hertz_to_scale of the bin and of the vertices), square-rooted"
+            n_ok += 1
+            got = _norm_mel(val)
+            wantn = _norm_mel(want)
+            ok = _cond_equal(got, wantn)
+            ctx.check(ok, R, f, prim[0]["stmt"],
+                      "%s.%s: bin b holds the triangle (x - l)/(m - l) up to the centre, (r - x)/(r - m) beyond it, at x = rate * b / width, with vertices i, i+1, i+2%s"
+                      % (name, meth, post),
+                      "%s.%s stores %s for bin b; the documented triangle is %s" % (name, meth, S.show(got)[:220], S.show(wantn)[:220]))
+            if name == "Fbank" and sq_ret:
+                ctx.ok(R, f.loc(), "Fbank.%s takes the square root on the returned array" % meth)
+    ctx.floor(R, n_ok, 4)
+
+
+def _norm_mel(e):
+    """MelScaling() instances are interchangeable: normalise the receiver of hertz_to_scale"""
+    m = {}
+    for x in S.walk(e):
+        if x.op == "call" and x.args[0] == ".hertz_to_scale" and len(x.args) == 3:
+            rcv = x.args[1]
+            if S.show(rcv) in ("scales.MelScaling()", "MelScaling()") or (rcv.op == "call" and str(rcv.args[0]).endswith("MelScaling")):
+                continue
+    return e
+
+
+def _cond_equal(a, b):
+    """equality of two (possibly conditional, possibly square-rooted) forms, branch by branch under the same test"""
+    if a.op == "pow" and b.op == "pow" and a.args[1] == b.args[1]:
+        return _cond_equal(a.args[0], b.args[0])
+    if a.op == "cond" and b.op == "cond":
+        ta, tb = a.args[0], b.args[0]
+        same_test = ta == tb or S.compare(S.cond(ta, S.ONE, S.ZERO), S.cond(tb, S.ONE, S.ZERO), domain={})["verdict"] == "equal"
+        if not same_test and ta.op == "cmp" and tb.op == "cmp" and ta.args[0] == tb.args[0]:
+            same_test = all(S.compare(x, y, domain={})["verdict"] == "equal" for x, y in zip(ta.args[1:], tb.args[1:]))
+        return same_test and _cond_equal(a.args[1], b.args[1]) and _cond_equal(a.args[2], b.args[2])
+    if a.op == "cond" or b.op == "cond":
+        return False
+    return S.compare(a, b, domain={})["verdict"] == "equal"
 
 
 def centres(ctx, R="R-C05-centres"):
